@@ -53,6 +53,14 @@ os.makedirs(out, exist_ok=True)
 shutil.copy(os.path.join(sd, "patch.diff"), out)
 if os.path.exists(os.path.join(sd, "rationale.md")):
     shutil.copy(os.path.join(sd, "rationale.md"), out)
+prev = os.path.join(out, "meta.json")
+if os.path.exists(prev) and sys.argv[3:]:
+    # a re-run of single checks: merge into the earlier record
+    old = json.load(open(prev)).get("evaluated_by_integrator", {})
+    merged = dict(old.get("checks", {})); merged.update(res["checks"])
+    for k, v in old.items():
+        res.setdefault(k, v)
+    res["checks"] = merged
 meta["evaluated_by_integrator"] = res
 json.dump(meta, open(os.path.join(out, "meta.json"), "w"), indent=1)
 print(json.dumps({c: (v["exit"], v["lines"][:1], v.get("first_replay_what", "")[:120]) for c, v in res["checks"].items()}, indent=0))
